@@ -212,7 +212,8 @@ FAMILIES = {
 }
 
 
-def write_cfg(path, fam, tier, roots_def, invariants, emit, max_nodes, min_nodes=1, sim=False, sharing=None):
+def write_cfg(path, fam, tier, roots_def, invariants, emit, max_nodes, min_nodes=1, sim=False, sharing=None,
+              nshards=1, shard=0):
     f = FAMILIES[fam]
     lines = ["SPECIFICATION MCSpec", "CONSTANTS"]
     consts = dict(Cbs="NoCb", EffSets="NoEff", Caches="MemOnly", BothPresets="FALSE", CollKinds="AllColl")
@@ -224,6 +225,8 @@ def write_cfg(path, fam, tier, roots_def, invariants, emit, max_nodes, min_nodes
     lines.append("  RootKinds <- %s" % roots_def)
     lines.append("  MaxNodes = %d" % max_nodes)
     lines.append("  MinNodes = %d" % min_nodes)
+    lines.append("  NShards = %d" % nshards)
+    lines.append("  Shard = %d" % shard)
     lines.append("  RequireComplete = %s" % ("FALSE" if sim else "TRUE"))
     lines.append("  KeepHist = %s" % ("TRUE" if f.get("hist") else "FALSE"))
     lines.append("  MaxHist = %d" % f.get("hist", 1))
@@ -358,13 +361,16 @@ def run_family(prop, fam, tier, sc, rep):
             states += mc.distinct
             trans += mc.generated
             _vlog("MC %s bfs%d: %d states in %.1fs" % (fam, run["max_nodes"], mc.distinct, mc.wall))
+            split = run.get("split", 1 if tier == "quick" else 4)
             for i, roots in enumerate(f["shards"]):
-                gen_cfg = sc.path("cfg", "Gen_%s_%d_%d.cfg" % (fam, ri, i))
-                write_cfg(gen_cfg, fam, tier, f["shard_defs"][roots[0]], [], emit=True, max_nodes=run["max_nodes"],
-                          sharing=run.get("sharing"))
-                fd = _Feeder(_tlc_cmd(sc, "gen-%s-%d-%d" % (fam, ri, i), gen_cfg), dict(os.environ), pool, results, None)
-                fd.kind = "bfs"
-                feeders.append(fd)
+                for k in range(split):
+                    gen_cfg = sc.path("cfg", "Gen_%s_%d_%d_%d.cfg" % (fam, ri, i, k))
+                    write_cfg(gen_cfg, fam, tier, f["shard_defs"][roots[0]], [], emit=True, max_nodes=run["max_nodes"],
+                              sharing=run.get("sharing"), nshards=split, shard=k)
+                    fd = _Feeder(_tlc_cmd(sc, "gen-%s-%d-%d-%d" % (fam, ri, i, k), gen_cfg), dict(os.environ), pool,
+                                 results, None)
+                    fd.kind = "bfs"
+                    feeders.append(fd)
         else:
             procs = run.get("procs", 8)
             for i in range(procs):
